@@ -34,7 +34,7 @@ LEVEL = 'other'
 EXPLANATION = __doc__
 ASSUMPTIONS = ['A1: Args.c_rev is None (set_comp not called)', 'A2: no command-line item starts with --bpaf-complete- (the property excludes such vectors)',
                'supports-color / owo-colors only affect coloured printing']
-FLOORS = {'B.builds': 6, 'A.additive': 3, 'C.colour': 10, 'I.inert': 20, 'F.family': 15, 'M.arm-agree': 1}
+FLOORS = {'B.builds': 6, 'A.additive': 3, 'C.colour': 10, 'I.inert': 20, 'F.family': 15, 'M.arm-agree': 1, 'T.live-pure-total': 2}
 
 INERT_FAMILY = [r'^args::inner::State::(comp_mut|comp_ref|is_comp|swap_comps|touching_last_remove|check_no_pos_ahead|set_no_pos_ahead)$',
                 r'^args::<impl args::inner::State>::swap_comps_with$',
@@ -110,6 +110,7 @@ def run(ctx):
         colour(ctx, base, ctx.facts(col), col)
     inert(ctx, base, ctx.facts('ac'), 'ac')
     family(ctx, ctx.facts('ac'), 'ac')
+    live_pure_total(ctx, ctx.facts('ac'), 'ac')
     # the combined build is the sum of the parts: compare `all` against `ac` on the autocomplete-touched functions
     if ctx.tier != 'quick':
         inert(ctx, ctx.facts('docgen,batteries'), ctx.facts('all' if False else 'autocomplete,docgen,batteries,bright-color'), 'ac+others', colour_ok=True)
@@ -296,6 +297,19 @@ def inert(ctx, base, feat, name, colour_ok=False):
             else:
                 detail = 'base-only statement %s has no counterpart rule' % it.sig
             ctx.ob('M.arm-agree', '%s:%s:%s' % (name, short(p), nm or it.sig[:40]), ok, '%s: %s' % (short(p), detail), where=it.where(), cfg=name)
+
+def live_pure_total(ctx, feat, name):
+    """feature-only crate functions that run even with completion off (listed in PURE_CALLS) must not be able to
+    fail: their string cuts take char-boundary offsets (the C04 rules, applied to exactly these functions)"""
+    import c04
+    mine = [b for b in feat.bodies.values() if b.kind != 'closure' and any(re.search(p_, b.path) for p_ in PURE_CALLS) and not b.path.startswith('std::')]
+    names = {short(outer(b.path)) for b in mine}
+    before = len(ctx.obs)
+    c04.str_cut(ctx, name, feat); c04.str_index(ctx, name, feat)
+    keep = [o for o in ctx.obs[before:] if o.key.split('|')[0] in names]
+    for o in keep: o.rule = 'T.live-pure-total'
+    ctx.obs = ctx.obs[:before] + keep
+    ctx.ob('T.live-pure-total', '%s:functions' % name, bool(mine), 'feature-only functions that run with completion off: %s' % sorted(names), cfg=name)
 
 def family(ctx, feat, name):
     fam = [b for b in feat.bodies.values() if b.kind != 'closure' and any(re.search(p, b.path) for p in INERT_FAMILY)]
